@@ -34,6 +34,9 @@ pub struct CmdFile {
     pub rel: String,
     /// false: a regular file without execute permission
     pub exec: bool,
+    /// a regular file WITH execute permission whose interpreter does not exist: spawning it fails
+    #[serde(default)]
+    pub broken: bool,
 }
 
 #[derive(Serialize, Deserialize, Clone, Debug, Default, PartialEq)]
@@ -255,7 +258,10 @@ impl World {
             if let Some(d) = p.parent() {
                 std::fs::create_dir_all(d).map_err(|e| e.to_string())?;
             }
-            if cf.exec {
+            if cf.broken {
+                std::fs::write(&p, b"#!/nonexistent/interpreter\n").map_err(|e| e.to_string())?;
+                std::fs::set_permissions(&p, std::fs::Permissions::from_mode(0o755)).map_err(|e| e.to_string())?;
+            } else if cf.exec {
                 std::os::unix::fs::symlink(&helper, &p).map_err(|e| e.to_string())?;
             } else {
                 std::fs::write(&p, b"#!/bin/false\n").map_err(|e| e.to_string())?;
